@@ -122,6 +122,24 @@ class Cx:
                     cands.append(d)
         if len(cands) == 1:
             return cands[0]
+        if len(cands) > 1 and hint:
+            # the hint names a type / module: prefer the candidate in which it is a whole path segment directly before the name,
+            # then the functions that existed when the rules were written
+            exact = [d for d in cands if d.endswith('::' + hint.split('::')[-1] + '::' + name) or (hint + '::' + name) in d and
+                     d.endswith(hint.split('::')[-1] + '::' + name)]
+            if len(exact) == 1:
+                return exact[0]
+            from analysis.sym import _known_fns
+            kf = _known_fns()
+            known = [d for d in (exact or cands) if d in kf]
+            if len(known) == 1:
+                return known[0]
+        elif len(cands) > 1:
+            from analysis.sym import _known_fns
+            kf = _known_fns()
+            known = [d for d in cands if d in kf]
+            if len(known) == 1:
+                return known[0]
         if not cands:
             raise AnchorLost('function %s%s not found' % (name, ' (%s)' % hint if hint else ''))
         raise AnchorLost('function %s is ambiguous: %s' % (name, cands))
@@ -369,7 +387,7 @@ def depends(cx, rule, prop, rule_ids, name, prog=None, only=None):
             _DEP_DEPTH[0] -= 1
     sub, lost = _DEP_CACHE[ck]
     if lost is not None:
-        rule.violation('%s|anchor' % name, 'the check establishing "%s" lost its anchor: %s' % (name, lost))
+        cx.check.error('imported rule "%s" (%s %s): anchor lost: %s' % (name, prop, '/'.join(rule_ids), lost))
         return []
     import re as _re
     # `only`: import just the instances of those rules that this property needs (a broader import would raise an alarm for
